@@ -32,6 +32,7 @@ type ScriptReader struct {
 	ci              int
 	zeroRun         int
 	NoCloser        bool
+	CloseErr        error // if set, Close reports this error (the call is still counted)
 }
 
 func (r *ScriptReader) Read(p []byte) (int, error) {
@@ -87,7 +88,7 @@ func (r *ScriptReader) Read(p []byte) (int, error) {
 }
 
 // Close records the call.
-func (r *ScriptReader) Close() error { r.Closes++; return nil }
+func (r *ScriptReader) Close() error { r.Closes++; return r.CloseErr }
 
 func (r *ScriptReader) String() string {
 	return fmt.Sprintf("src{len=%d chunks=%v eofWith=%v failAt=%d failWith=%v failOnce=%v}", len(r.Data), r.Chunks, r.EOFWith, r.FailAt, r.FailWith, r.FailOnce)
